@@ -104,6 +104,10 @@ bool splinetable<Alloc>::write_key(const char* key, const T& value){
 										 "contain lowercase characters (key was '"+
 										 std::string(key)+"')");
 		}
+		if(13+(keylen-1)>=80) //the subtraction below must not wrap around
+			throw std::runtime_error("Key is too long to be stored as a FITS keyword (key '"
+									 +std::string(key)+"' has length "+std::to_string(keylen-1)
+									 +", but a maximum of 66 characters will fit)");
 		maxdatalen=80-(13+keylen-1); //14 characters for "HIERARCH ", "= '", and "'"
 	}
 	std::ostringstream ss;
